@@ -1970,10 +1970,10 @@ def _enum_multidv(tier):
 
 
 SUBCHECKS = [
-    SubCheck('covariate', lambda: COV_SPEC, run_covariate, quick=400, thorough=3540),
-    SubCheck('variability', lambda: VAR_SPEC, run_variability, quick=600, thorough=5320, enumerate=_enum_variability),
-    SubCheck('error', lambda: ERR_SPEC, run_error, quick=450, thorough=4880, enumerate=_enum_error),
-    SubCheck('error_multidv', lambda: MDV_SPEC, run_error_multidv, quick=150, thorough=1330, enumerate=_enum_multidv),
-    SubCheck('transit_absorption', lambda: ABS_SPEC, run_transit_absorption, quick=300, thorough=2660),
-    SubCheck('transit_history', lambda: TRH_SPEC, run_transit_history, quick=120, thorough=1000, enumerate=_enum_transit_history),
+    SubCheck('covariate', lambda: COV_SPEC, run_covariate, quick=400, thorough=7080),
+    SubCheck('variability', lambda: VAR_SPEC, run_variability, quick=600, thorough=10640, enumerate=_enum_variability),
+    SubCheck('error', lambda: ERR_SPEC, run_error, quick=450, thorough=9760, enumerate=_enum_error),
+    SubCheck('error_multidv', lambda: MDV_SPEC, run_error_multidv, quick=150, thorough=2660, enumerate=_enum_multidv),
+    SubCheck('transit_absorption', lambda: ABS_SPEC, run_transit_absorption, quick=300, thorough=5320),
+    SubCheck('transit_history', lambda: TRH_SPEC, run_transit_history, quick=120, thorough=2000, enumerate=_enum_transit_history),
 ]
